@@ -87,6 +87,9 @@ def binary_round(ck, rng, model, helper, stats):
     pat = rng.choice([b'needle', b'^plain text$', b'html', b'caf', b'x=y'])
     hpat = rng.choice([b'text.plain', b'html', b'multipart', b'^text.plain$', b'octet'])
     msgs = []
+    # half of the rounds: a header condition (that does not decide anything) on a field whose value carries a malformed encoded word after
+    # some text is evaluated first - what the header decoder did must not leak into the decoding of bodies and parts
+    odd = rng.choice([None, b'Re: =?UTF-8?Q?unterminated', b'what =? gives', b'=?UTF-8?Q?fine?= =?UTF-8?X?unknown?= tail', b'lead =?UTF-8?B?@@@?= x'])
     for i in range(1 if kind in ('block', 'exec body') else 10):
         if rng.randrange(3) == 0:
             text = msggen.gen_mime_message(rng)
@@ -98,6 +101,8 @@ def binary_round(ck, rng, model, helper, stats):
             text = (b'To: a@b\nX-Id: %d\n' % i) + msggen.render_tree(t, rng)
         if len(text) > 20000:
             continue
+        if odd is not None:
+            text = b'X-Odd: ' + odd + b'\n' + text
         sb.add(src, 'cur', text)
         msgs.append((i, text))
     if kind == 'body':
@@ -114,6 +119,11 @@ def binary_round(ck, rng, model, helper, stats):
             # the body is piped after the message was rewritten by an earlier action of the same rule (another file, another header length)
             rewritten = True
             rule = b'match all add-header "X-C11-Rather-Long-Field-Name" "a value of some length" exec stdin body "%s"' % helper.encode()
+    if odd is not None:
+        if rule.startswith(b'match all '):
+            rule = b'match ! header "X-Odd" /zzz-never/ ' + rule[len(b'match all '):]
+        else:
+            rule = b'match ( header "X-Odd" /zzz-never/ or ' + rule[len(b'match '):].replace(b' move "', b' ) move "', 1)
     conf = sb.write_conf(b'maildir "%s" {\n\t%s\n}\n' % (src.encode(), rule))
     rc, out, err = sb.run([], conf=conf, env={'VERIF_HELPER_OUT': hout})
     cfg = open(conf, 'rb').read().decode(errors='replace')
